@@ -238,12 +238,14 @@ def handleMW (c info : Line) : IO Unit := do
     | .error e => legacyOf none (showErr e) tolAbs
     | .exact _ p => legacyOf (some p) "" tolAbs
     | .normal _ tn s2 => let (p, tol) := normalP alt (zFixed tn s2); legacyOf (some p) "" tol
-  IO.println s!"obs {c.id} {modelLine}{modelLegacy}"
+  -- `in=kept`: the call copies its arguments before sorting (utest.go:132-133); model and spec are
+  -- functions of the samples, so nothing else is admissible
+  IO.println s!"obs {c.id} in=kept {modelLine}{modelLegacy}"
   -- specification
   if n1 = 0 ∨ n2 = 0 then
-    IO.println s!"spec {c.id} res=!size{legacyOf none "!size" tolAbs}"
+    IO.println s!"spec {c.id} in=kept res=!size{legacyOf none "!size" tolAbs}"
   else if Spec.UExact.allEqual x1 x2 then
-    IO.println s!"spec {c.id} res=!equal{legacyOf none "!equal" tolAbs}"
+    IO.println s!"spec {c.id} in=kept res=!equal{legacyOf none "!equal" tolAbs}"
   else
     let tu := Spec.UExact.twoUPairs x1 x2
     let ties := Spec.UExact.hasTies x1 x2
@@ -256,7 +258,7 @@ def handleMW (c info : Line) : IO Unit := do
         | .differs => d.two tu
       let kf := if alt == .differs && ties && modelP != some p then " kf=N5" else ""
       let chk := if d.consistent then "" else " SPEC-INCONSISTENT(enumeration≠group-count)"
-      IO.println s!"spec {c.id} res=ok n={n1},{n2} twoU={tu} p={snap pbits p}{legacyOf (some p) "" tolAbs}{chk}{kf}"
+      IO.println s!"spec {c.id} in=kept res=ok n={n1},{n2} twoU={tu} p={snap pbits p}{legacyOf (some p) "" tolAbs}{chk}{kf}"
     else
       let s2 := Spec.UExact.sigma2 n1 n2 (Spec.UExact.tieTerm x1 x2)
       let tn := match alt with
@@ -264,7 +266,7 @@ def handleMW (c info : Line) : IO Unit := do
         | .greater => Spec.UExact.twoNumerGreater tu n1 n2
         | .differs => Spec.UExact.twoNumerTwoSided tu n1 n2
       let (p, tol) := normalP alt (zFixed tn s2)
-      IO.println s!"spec {c.id} res=ok n={n1},{n2} twoU={tu} p={snap pbits p tol}{legacyOf (some p) "" tol}"
+      IO.println s!"spec {c.id} in=kept res=ok n={n1},{n2} twoU={tu} p={snap pbits p tol}{legacyOf (some p) "" tol}"
 
 /-! ### distribution cases -/
 
@@ -313,7 +315,12 @@ def handle (pending : IO.Ref (Option Line)) (l : Line) : IO Unit := do
     | some c =>
         if c.id == l.id then
           pending.set none
-          if c.getD "kind" == "dist" then handleDist c l else handleMW c l
+          if c.getD "kind" == "dist" then handleDist c l
+          else if c.getD "kind" == "limits" then
+            -- the model is parametric in the limits (echo); the specification records the documented defaults
+            IO.println s!"obs {c.id} lim={c.getD "lim"}"
+            IO.println s!"spec {c.id} lim={Spec.UExact.documentedExactLimit},{Spec.UExact.documentedTiesExactLimit}"
+          else handleMW c l
     | none => pure ()
 
 end Driver.C11
